@@ -18,7 +18,7 @@ EXPLANATION = (
     "and are never leaked. Multi-threaded histories (the cell's atomics) are not decided.")
 ASSUMPTIONS = ["atomic_refcell implements shared-xor-exclusive with panicking / failing borrows and releases in Drop"]
 TRUSTED = ["rustc nightly MIR construction", "shred-facts driver", "shredlint analyses"]
-TECHNIQUE = 'static: who-may-touch analysis of World.resources and of looked-up cells, AtomicRefCell API inventory, decision tables of the try_fetch family, semantic sibling skeletons, unsafe item inventory, guard ownership / leak inventory, compile_fail witnesses'
+TECHNIQUE = 'static: who-may-touch analysis of World.resources and of looked-up cells, AtomicRefCell API inventory, decision tables of the try_fetch family, shared / exclusive siblings compared on their canonical tabulations, the unsafe escape hatch decided in each function that uses it (helpers in their callers), unsafe item inventory, guard ownership / leak inventory, compile_fail witnesses'
 RULE_TEXT = "one obligation per body reaching the resource table, per decision-table row of the fetch functions, per sibling pair, per unsafe item"
 
 
